@@ -80,8 +80,16 @@ def observe(cfg, variant=0):
                                                   random_state=variant)
         import joblib
         fitfh = [2, 3] if variant % 2 else None      # a horizon handed to fit that differs from the splitter's [1]
+        # every third search comes with exogenous data: every fit of every candidate, and the final refit, get the rows
+        # of X that belong to their training window
+        Xex = pd.DataFrame({"x": [3000.0 + t for t in range(n)]}, index=y.index) if (variant % 3 == 1 and cfg["nest"] == "plain") else None
         with joblib.parallel_backend("threading"):   # threads: the stubs' logs live in this process
-            tuner.fit(y, fh=fitfh)
+            tuner.fit(y, X=Xex, fh=fitfh) if Xex is not None else tuner.fit(y, fh=fitfh)
+        if Xex is not None:
+            badx = [e for e in stubs.LOG[TAG] if e["ev"] == "fit" and e.get("x") != list(range(e["first"], e["last"] + 1))]
+            if badx:
+                return {"crash": "a candidate / the refitted best forecaster was fitted on %d..%d with exogenous rows %s"
+                                 % (badx[0]["first"], badx[0]["last"], badx[0].get("x"))}
         res = tuner.cv_results_
         col = "mean_test_" + sc.name
         tabs = [list(t) for t in cfg["tables"]]
@@ -125,7 +133,7 @@ def observe(cfg, variant=0):
                      and e["table"] == tabs[o["best_params"] - 1]]
             o["refit_window"] = [whole[0]["first"], whole[0]["last"]] if whole else [-1, -1]
             direct = clone(proto).set_params(**tuner.best_params_)
-            direct.fit(y, fh=fitfh)
+            direct.fit(y, X=Xex, fh=fitfh) if Xex is not None else direct.fit(y, fh=fitfh)
             if fitfh:      # predict() without a horizon answers for the one given to fit
                 a, b = tuner.predict(), direct.predict()
                 if list(a.index) != [og + n - 1 + h for h in fitfh] or list(a.index) != list(b.index) or \
@@ -139,15 +147,16 @@ def observe(cfg, variant=0):
             for upd in (False, True):
                 import copy
                 t2, d2 = copy.deepcopy(tuner), copy.deepcopy(direct)
-                t2.update(ynew, update_params=upd)
-                d2.update(ynew, update_params=upd)
+                Xnew = None if Xex is None else pd.DataFrame({"x": [3000.0 + t for t in range(n, n + 2)]}, index=ynew.index)
+                t2.update(ynew, X=Xnew, update_params=upd)
+                d2.update(ynew, X=Xnew, update_params=upd)
                 same = same and bool(np.allclose(t2.predict([1, 2]).values, d2.predict([1, 2]).values, rtol=0, atol=1e-9)) \
                     and int(t2.cutoff) == int(d2.cutoff) == og + n + 1
             o["delegates"] = same
             o["notfitted"] = [False, False, False]
         else:
             nf = []
-            for call in (lambda: tuner.predict([1]), lambda: tuner.update(ynew), lambda: tuner.cutoff):
+            for call in (lambda: tuner.predict([1]), lambda: tuner.update(ynew), lambda: tuner.cutoff):      # (unfitted: no X needed)
                 try:
                     call()
                     nf.append(False)
@@ -162,7 +171,7 @@ def observe(cfg, variant=0):
         # a second fit of the very same tuner object
         first = (repr(res[col].tolist()), int(tuner.best_index_), float(tuner.best_score_), repr(tuner.best_params_))
         with joblib.parallel_backend("threading"):
-            tuner.fit(y, fh=fitfh)
+            tuner.fit(y, X=Xex, fh=fitfh) if Xex is not None else tuner.fit(y, fh=fitfh)
         res2 = tuner.cv_results_
         o["again"] = bool((repr(res2[col].tolist()), int(tuner.best_index_), float(tuner.best_score_), repr(tuner.best_params_)) == first)
         return o
